@@ -185,6 +185,10 @@ def lint(ctx, py: PyRepo):
             nested = {n.name: n for n in ast.walk(fn) if isinstance(n, ast.FunctionDef) and n is not fn}
             scans = [(qn, fn)] + [(f'{qn}.{n}', g) for n, g in nested.items()]
             for sqn, sfn in scans:
+                if any(isinstance(n, ast.For) and isinstance(n.iter, (ast.Tuple, ast.List)) for n in ast.walk(sfn)):
+                    # `for c in (A, B): c.deconstruct(x)`: the receiver class is known per iteration
+                    from ..core.pyeval import unroll_constant_loops
+                    sfn = unroll_constant_loops(sfn)
                 sc = FnScan()
                 for st in sfn.body:
                     sc.visit(st)
@@ -247,43 +251,129 @@ def lint(ctx, py: PyRepo):
     ctx.analysed['boolean-context calls with unresolved callee'] = n_unresolved
 
 
+def ms_paths(py: PyRepo):
+    """value-level paths of match_single: loops over a literal tuple of constructors unrolled, non-recursive loop-free helpers of the
+    module evaluated in place"""
+    from ..core.pyeval import PyEval, unroll_constant_loops
+    fn0 = py.function('pattern', 'match_single')
+    fn = unroll_constant_loops(fn0)
+    mi = py.module('pattern')
+
+    def resolver(call, env, _ev):
+        if isinstance(call.func, ast.Name) and call.func.id in mi.functions and call.func.id != fn0.name:
+            g = mi.functions[call.func.id]
+            calls_self = any(isinstance(n, ast.Call) and isinstance(n.func, ast.Name) and n.func.id in (g.name, fn0.name) for n in ast.walk(g))
+            if not calls_self and not any(isinstance(n, (ast.For, ast.While)) for n in ast.walk(g)):
+                return g, None
+        return None
+    return fn0, PyEval(resolver=resolver).paths(fn)
+
+
+def _leaves(v, out):
+    if isinstance(v, tuple) and v and v[0] == 'ifexp':
+        for x in v[1:]:
+            _leaves(x, out)
+    elif isinstance(v, tuple) and v and v[0] == 'boolop':
+        for x in v[2]:
+            _leaves(x, out)
+    else:
+        out.append(v)
+    return out
+
+
 def match_single_shape(ctx, py: PyRepo):
-    """per-constructor shape: both sides destructured with the same helper, non-pattern fields compared, pattern fields matched
-    threading the same substitution; pre-supplied bindings compared, not overwritten"""
-    fn = py.function('pattern', 'match_single')
+    """per-constructor shape, decided on the value-level paths: both sides destructured as the same constructor, pre-supplied
+    bindings compared and not overwritten, the substitution built so far threaded through every recursive call and returned"""
+    from ..core.pyeval import show
+    fn, paths = ms_paths(py)
     where = py.where('pattern', fn)
-    src = ast.unparse(fn)
-    # bound metavariable: compared with the instance
-    ok_bound = re.search(r'if id in ret:\s+if ret\[id\] != instance:\s+return None', src) is not None
-    # (structural variant of the same fact, independent of formatting)
-    bound_cmp = False
-    for n in ast.walk(fn):
-        if isinstance(n, ast.If) and isinstance(n.test, ast.Compare) and isinstance(n.test.ops[0], ast.In):
-            for m in ast.walk(n):
-                if isinstance(m, ast.Compare) and isinstance(m.ops[0], ast.NotEq) and 'instance' in ast.unparse(m):
-                    bound_cmp = True
-            writes_in_then = any(isinstance(m, ast.Assign) and isinstance(m.targets[0], ast.Subscript) for st in n.body for m in ast.walk(st))
-            if writes_in_then:
-                bound_cmp = False
-    ctx.ob('match-shape', 'bound-metavariable-compared', ok_bound or bound_cmp,
-           'a metavariable that already has a binding must be compared with the instance, not rebound', where)
-    # each constructor case uses the same destructuring helper on pattern and instance
-    pairs = []
-    for n in ast.walk(fn):
-        if isinstance(n, ast.Call) and isinstance(n.func, ast.Attribute) and n.func.attr in ('unwrap', 'deconstruct') \
-                and isinstance(n.func.value, ast.Name) and n.args and isinstance(n.args[0], ast.Name):
-            pairs.append((n.func.value.id, n.func.attr, n.args[0].id))
-    by_ctor: dict[str, set] = {}
-    for c, h, a in pairs:
-        by_ctor.setdefault(c, set()).add(a)
+    ctx.require(len(fn.args.args) == 3, 'match_single: signature changed')
+    P, I, EXT = (('param', a.arg) for a in fn.args.args)
+    NAME = ('attr', P, 'name')
+
+    def is_seed(v):
+        lv = _leaves(v, [])
+        return EXT in lv and all(x in (EXT, ('dict', ())) for x in lv)
+
+    def is_rec(v):
+        return isinstance(v, tuple) and v and v[0] == 'call' and v[1] == ('name', fn.name)
+
+    def destr(v):
+        if isinstance(v, tuple) and v and v[0] == 'call' and v[1][0] == 'attr' and v[1][2] in ('deconstruct', 'unwrap') and v[1][1][0] == 'name' \
+                and len(v[2]) == 1 and v[2][0] in (P, I):
+            return (v[1][1][1], v[2][0])
+        return None
+
+    n_rec = 0
+    bad_thread, bad_bound, unknown_bound = [], [], []
+    ctor_ok: set[str] = set()
+    for p in paths:
+        cur = None                                     # the substitution built so far (None: still the seed)
+        for e in p.events:
+            if e.kind != 'ecall' or not is_rec(e.value):
+                continue
+            n_rec += 1
+            args = list(e.value[2]) + [kv[1] for kv in e.value[3] if kv[0] == fn.args.args[2].arg]
+            third = args[2] if len(args) >= 3 else None
+            if third is None:
+                bad_thread.append(f'{show(e.value)[:90]} starts from an empty substitution')
+            elif cur is None:
+                if not is_seed(third):
+                    bad_thread.append(f'{show(e.value)[:90]} does not pass the substitution built so far')
+            else:
+                if third != cur:
+                    bad_thread.append(f'{show(e.value)[:90]} does not pass the result of the previous recursive call')
+                elif not any(c == ('cmp', 'is', cur, ('const', None)) and b is False for c, b in p.conds):
+                    bad_thread.append('the result of a recursive call is threaded on without having been tested for failure (None)')
+            cur = e.value
+        if p.end[0] != 'return' or p.end[1] == ('const', None):
+            continue
+        rv = p.end[1]
+        if not (rv == cur if cur is not None else is_seed(rv)):
+            bad_thread.append(f'a successful path returns {show(rv)[:80]}, not the substitution built so far')
+        est = set()
+        for c, b in p.conds:
+            if c[0] == 'cmp' and c[1] == 'is' and c[3] == ('const', None) and b is False and destr(c[2]):
+                est.add(destr(c[2]))
+            elif b is True and destr(c):
+                est.add(destr(c))
+        for ctor in {c for c, _s in est}:
+            if (ctor, P) in est and (ctor, I) in est:
+                ctor_ok.add(ctor)
+        # the metavariable case
+        if any(c == ('call', ('name', 'isinstance'), (P, ('name', 'MetaVar')), ()) and b is True for c, b in p.conds):
+            has = None
+            bound_vals = []
+            for c, b in p.conds:
+                if c[0] == 'cmp' and c[1] == 'in' and c[2] == NAME and is_seed(c[3]):
+                    has = b
+                    bound_vals = [('sub', c[3], NAME)]
+                elif c[0] == 'cmp' and c[1] == 'is' and c[3] == ('const', None) and c[2][0] == 'call' and c[2][1][0] == 'attr' \
+                        and c[2][1][2] == 'get' and is_seed(c[2][1][1]) and tuple(c[2][2]) == (NAME,):
+                    has = not b
+                    bound_vals = [c[2], ('sub', c[2][1][1], NAME)]
+            sets = [e for e in p.events if e.kind == 'setitem']
+            if has is None:
+                unknown_bound.append(' and '.join(f'{show(c)[:60]} is {b}' for c, b in p.conds))
+            elif has:
+                cmpd = any(c[0] == 'cmp' and c[1] == '==' and b is True and {c[2], c[3]} & set(bound_vals) and I in (c[2], c[3]) for c, b in p.conds)
+                if sets:
+                    bad_bound.append('an existing binding is overwritten')
+                elif not cmpd:
+                    bad_bound.append('an existing binding is accepted without being compared with the instance')
+            else:
+                if not any(is_seed(e.value[0]) and e.value[1] == NAME and e.value[2] == I for e in sets):
+                    bad_bound.append('an unbound metavariable is reported matched without being bound to the instance')
+    ctx.require(not unknown_bound, 'match_single: cannot tell whether the metavariable already has a binding on the path where '
+                + (unknown_bound[0] if unknown_bound else ''))
+    ctx.ob('match-shape', 'bound-metavariable-compared', not bad_bound,
+           'a metavariable that already has a binding must be compared with the instance, not rebound: ' + '; '.join(sorted(set(bad_bound))), where)
     for c in ('Implies', 'App', 'EVar', 'SVar', 'Symbol', 'Exists', 'Mu'):
-        ctx.ob('match-shape', f'case/{c}', by_ctor.get(c) == {'pattern', 'instance'},
-               f'match_single must destructure both the pattern and the instance as {c} (found {sorted(by_ctor.get(c, []))})', where)
-    # recursive calls thread the substitution: every recursive call passes `ret` as third argument
-    rec = [n for n in ast.walk(fn) if isinstance(n, ast.Call) and isinstance(n.func, ast.Name) and n.func.id == 'match_single']
-    ok_thread = bool(rec) and all(len(n.args) == 3 and isinstance(n.args[2], ast.Name) and n.args[2].id == 'ret' for n in rec)
-    ctx.ob('match-shape', 'substitution-threaded', ok_thread, 'recursive calls must thread the substitution built so far', where,
-           facts={'recursive calls': len(rec)})
+        ctx.ob('match-shape', f'case/{c}', c in ctor_ok,
+               f'match_single has no successful path on which both the pattern and the instance are destructured as {c}', where)
+    ctx.ob('match-shape', 'substitution-threaded', n_rec > 0 and not bad_thread,
+           'recursive calls must thread the substitution built so far: ' + '; '.join(sorted(set(bad_thread))[:3]), where,
+           facts={'recursive calls on all paths': n_rec, 'paths': len(paths)})
 
 
 def match_single_paths(ctx, py: PyRepo):
@@ -291,10 +381,9 @@ def match_single_paths(ctx, py: PyRepo):
     returned only by the delegation, a shortcut may only return a success; (2) an equality test between destructured components is
     between the components established (not None / truthy) on that very path, for one constructor"""
     from ..core.pyeval import PyEval, show
-    fn = py.function('pattern', 'match_single')
+    fn, paths = ms_paths(py)
     where = py.where('pattern', fn)
     P, I = ('param', fn.args.args[0].arg), ('param', fn.args.args[1].arg)
-    paths = PyEval().paths(fn)
 
     def is_destr(v):
         # C.deconstruct(x) / C.unwrap(x) and items of them
